@@ -27,7 +27,7 @@
 static int thorough;
 
 typedef struct { const char *name; int kind; wcfg_t cfg; int resumed; int expect_complete; } scen_t;
-enum { K_LOADKEYS_RSA = 0, K_LOADKEYS_EC, K_SESSION, K_LOADKEYS_PEMCAS, K_PARSE_OBJECTS };
+enum { K_LOADKEYS_RSA = 0, K_LOADKEYS_EC, K_SESSION, K_LOADKEYS_PEMCAS, K_PARSE_OBJECTS, K_LOADKEYS_PSK13 };
 static scen_t scens[32];
 static int nscen;
 
@@ -140,6 +140,41 @@ static void run_scenario(int si, sres_t *out)
     const scen_t *S = &scens[si];
     memset(out, 0, sizeof(*out));
     env_live_reset();
+    if (S->kind == K_LOADKEYS_PSK13)
+    {
+        /* a key set that receives two TLS 1.3 PSKs carrying session parameters (server name, ALPN protocol) */
+        sslKeys_t *k = NULL;
+        int rc;
+        static const unsigned char key[32] = { 1, 2, 3, 4, 5, 6, 7, 8, 9, 10, 11, 12, 13, 14, 15, 16, 17, 18, 19, 20, 21, 22, 23, 24, 25, 26, 27, 28, 29, 30, 31, 32 };
+        static const unsigned char id1[6] = "psk-01", id2[6] = "psk-02";
+        psTls13SessionParams_t prm;
+        world_open();
+        env_track(1);
+        rc = matrixSslNewKeys(&k, NULL);
+        if (rc >= 0 && k)
+        {
+            memset(&prm, 0, sizeof(prm));
+            prm.sni = (unsigned char *) "localhost"; prm.sniLen = 9;
+            prm.alpn = (unsigned char *) "http/1.1"; prm.alpnLen = 8;
+            prm.majVer = 3; prm.minVer = 4; prm.cipherId = TLS_AES_128_GCM_SHA256;
+            rc = matrixSslLoadTls13Psk(k, key, 32, id1, 6, &prm);
+            if (rc >= 0)
+            {
+                out->certs++;
+                rc = matrixSslLoadTls13Psk(k, key, 32, id2, 6, &prm);
+            }
+            if (rc < 0) out->any_api_error = 1;
+            else out->certs++;
+            matrixSslDeleteKeys(k);
+        }
+        else
+        {
+            out->any_api_error = 1;
+        }
+        env_track(0);
+        out->live_after = env_live();
+        return;
+    }
     if (S->kind == K_PARSE_OBJECTS)
     {
         /* the credential parsers on objects the handshake scenarios do not carry: an extension-rich certificate (multi-valued
@@ -528,6 +563,7 @@ int main(int argc, char **argv)
     /* an application that reads a record in two parts and asks for a larger read buffer for the second */
     add_scen("tls12-psk-two-part-receive-readbuf-of-size", K_SESSION, V_TLS12, KX_PSK, 0, 0, 0, 0, 0, 1, 1);
     scens[nscen - 1].cfg.feed_of_size = 1;
+    add_scen("load-two-tls13-psks-with-sni-and-alpn", K_LOADKEYS_PSK13, 0, 0, 0, 0, 0, 0, 0, 0, 1);
 
     if (replay)
     {
